@@ -340,14 +340,18 @@ pub fn run_property(root: &Path, prop: &str, tier: Tier, seed: u64) -> i32 {
     let mut w0 = Worker::spawn();
 
     // 1. known findings: replay reproducers
-    for f in kf.findings.iter().filter(|f| f.reproducer.prop == prop) {
+    // (known findings are replayed by every check whose property they are listed for: the reproducer is
+    // evaluated by the check of its own property; fixed findings only by their own check)
+    for f in kf.findings.iter().filter(|f| f.reproducer.prop == prop || (f.status == "known" && f.properties.iter().any(|p| p == prop))) {
         let v = eval_via(&mut w0, &f.reproducer, tier);
         let failing_as_listed = matches!(&v.status, Status::Fail { kind } if f.kinds.iter().any(|k| k == kind));
         if f.status == "known" {
             if failing_as_listed {
                 known_lines.push(format!("KNOWN-FINDING: property={} {}: {} [{}]", prop, f.id, f.what, f.reproducer.describe()));
             } else if v.is_fail() {
-                violations.push(Violation { case: f.reproducer.clone(), verdict: v, origin: format!("known-finding reproducer {} fails differently", f.id) });
+                if f.reproducer.prop == prop {
+                    violations.push(Violation { case: f.reproducer.clone(), verdict: v, origin: format!("known-finding reproducer {} fails differently", f.id) });
+                }
             } else {
                 notes.push(format!("known finding {} no longer reproduces ({:?})", f.id, v.status));
             }
